@@ -3,6 +3,7 @@ import OmbottModel.Lemmas.RouterGet
 import OmbottModel.Lemmas.RouterPrio
 import OmbottModel.Lemmas.RouterIns
 import OmbottModel.Lemmas.RouterResolve
+import OmbottModel.Lemmas.RouterParse
 /-!
 C01 — Route resolution equals the plain rule-by-rule semantics.
 Property theorems only; helper lemmas live in `Lemmas/Router*.lean`.
@@ -42,6 +43,18 @@ theorem insert_denote (t t' : Node) (pat : List Sym) (d : Nat) (names : List Str
   intro e
   have := (insN_spec _ t h pat t' hi).2.2.2 e
   simpa [newRule, denote] using this
+
+/-- **Domain of the history theorems.**  The hypothesis `OpOK` they carry ("the parsed pattern
+has no literal marker character") holds for every registration whose rule text does not contain
+the router's own wildcard marker (CR): the literal characters of a parsed pattern all come from
+the rule text. -/
+theorem rule_without_marker_ok (cenv : CompileEnv) (a : AddArgs) (hr : Gen.paramToken ∉ a.rule) :
+    OpOK (.add cenv a) := opOK_of_no_marker cenv a hr
+
+/-- the parser lists exactly one parameter name per wildcard of the pattern -/
+theorem one_name_per_wildcard (cenv : CompileEnv) (rule : Str) (p : Parsed)
+    (h : parseRule cenv rule = .ok p) : p.params.length = countToks p.syms :=
+  parseRule_params_len h
 
 /-- after every history of `add` / `remove_method` calls the tree is well formed and holds
 exactly the rules the `routes` table lists -/
@@ -221,6 +234,7 @@ theorem opOK_of_parse {cenv : CompileEnv} {a : AddArgs} {p : Parsed}
 theorem nvOps_ok : ∀ op ∈ nvOps, OpOK op := by
   intro op hop
   simp only [nvOps, List.mem_cons, List.not_mem_nil, or_false] at hop
+  -- (directly; `rule_without_marker_ok` with `by decide` on the rule text works as well)
   rcases hop with rfl | rfl | rfl | rfl | rfl
   · exact opOK_of_parse (p := ⟨[.lit 'a', .lit '/', .tok (some "int(None)".toList)], ["x".toList],
       [.lit 'a', .lit '/', .tok (some "int(None)".toList)]⟩) (by rfl)
@@ -261,6 +275,10 @@ example : treeAdd Node.root [.lit 'a', .lit '/', .tok none] 0 ["x".toList] = .ok
 converted value -/
 example : (Router.run asciiUpper nvOps).resolve nvEnv "/a/12".toList ["POST".toList, "ANY".toList] =
     .found 2 "POST".toList [("z".toList, .conv "int:12".toList)] [] := by decide +kernel
+
+/-- `rule_without_marker_ok`: the hypothesis is decidable on the rule text -/
+example : OpOK (.add nvCenv { rule := "/a/<x:int>".toList, methods := [], handler := 0 }) :=
+  rule_without_marker_ok _ _ (by decide)
 
 /-- the filter rejects: not found -/
 example : (Router.run asciiUpper nvOps).resolve nvEnv "/a/x".toList ["POST".toList, "ANY".toList] =
